@@ -26,6 +26,7 @@ struct StartSpec {
   int prog = 0;  // 0 /bin/prog, 1 ./prog, 2 sub/prog, 3 bare "prog" (PATH), 4 /bin/missing, 5 /bin/noexec, 6 /bin (directory), 7 bare missing, 8 "" (empty), 9 ../<cwd name>/prog, 10 .hidden/prog
   std::vector<std::string> args;
   bool argv_null = false;
+  bool argv_empty = false;          // argv is a non-NULL array whose first element is NULL
   int64_t input_size = -1;  // -1: no input
   bool input_bad = false;   // size>0 with NULL data
   int deadline = 0;
@@ -56,6 +57,7 @@ struct ExtraFd { int fd = -1; int kind = 0; bool cloexec = false; };  // kind 0 
 struct WorldSpec {
   simk::World k;
   int low_fds = 7;          // bit i: caller's descriptor i is open
+  bool sa_flags = false;    // the caller's handlers carry SA_RESTART|SA_SIGINFO and SIGCHLD carries SA_NOCLDWAIT
   int sigpipe = 0;          // caller's SIGPIPE disposition: 0 ignored (what the README asks for), 1 default, 2 a handler (plans without writes only)
   std::vector<ExtraFd> extra;
   int cwd_depth = 1;        // number of components below /
